@@ -333,3 +333,109 @@ class PrefixObjective:
 def exact_explorer(name, timeout_ms=30000, wall_s=None, max_paths=200000):
     return Explorer(mode='EXACT', logic='QF_NRA', name=name, timeout_ms=timeout_ms, ratfun=True, scratch=True, wall_s=wall_s,
                     max_paths=max_paths)
+
+
+def scenario_job(cfg, want, extra=None, label=None, timeout_ms=30000):
+    """One scenario through the public interface: concrete prefix of `kpre` objective values, then arbitrary values.
+    cfg is JSON-able and is replayed natively as is (agpnative.native_main, level 'scenario')."""
+    st = setup()
+    mods = st['mods']
+    use_queue_stub(not cfg.get('real_queue', False))
+    N = cfg['N']
+
+    def h(ex):
+        del PRINTS[:]
+        fail = cfg.get('fail')
+        obj = PrefixObjective(ex, cfg.get('seed', 0), N, cfg.get('kpre', 0), zrange=cfg.get('zrange', 1000),
+                              fail_at=fail[0] if fail else None, exc=an.EXC_TYPES[fail[1]]() if fail else None)
+        rr = exact_const(cfg['r'])
+        if cfg.get('eps') == 'sym':
+            eps = ex.real('eps')
+            ex.assume(z3.And(eps.t > 0, eps.t < 2))
+        else:
+            eps = cfg.get('eps', 1e-9)
+        ctx = an.run_scenario(mods, cfg, obj, rr, eps, prints=PRINTS)
+        cl = an.scenario_clauses(mods, ctx, want)
+        if extra is not None:
+            cl += extra(mods, ctx, want)
+        ex.tag('scenario')
+        if ctx['listener'] is not None:
+            tr = an.trials_of(ctx['listener'])
+            if any(isinstance(t[0], Sym) and t[0].const() is None for t in tr):
+                ex.tag('trial-location-depends-on-symbolic-values')
+        for t in cfg.get('tags', ()):
+            ex.tag(t)
+        prove_all(ex, cl, only=want)
+        return [str(x)[:60] for x in cfg['script']]
+    name = label or 'scenario N=%d r=%s f#%s kpre=%s %s' % (N, cfg['r'], cfg.get('seed'), cfg.get('kpre'), cfg['script'])
+    ex = exact_explorer(name, timeout_ms=timeout_ms)
+    ex.explore(h, sample_every=17)
+    a = {'level': 'scenario', 'cfg': cfg, 'N': N}
+    if extra is not None:
+        a['extra_clauses'] = (extra.__module__ if extra.__module__ != '__main__' else 'harness.' + os.path.basename(sys.argv[0])[:-3], extra.__name__)
+    return summary(ex, name, {k: v for k, v in cfg.items() if k in ('N', 'r', 'seed', 'kpre', 'nsym', 'script', 'iters_limit', 'eps', 'fail', 'sibling')}, a)
+
+
+def replay_args(c, want):
+    d = dict(c['detail'])
+    a = {'want': list(want), 'model': c['model'], 'N': d.get('N', 1)}
+    a.update({k: v for k, v in d.items() if k not in ('path', 'kind', 'exception')})
+    return a
+
+
+def confirm(run, want, kinds_needing_e2e=('I',)):
+    """Replays every distinct candidate natively.  Kernel, scenario and 'P'-kind step clauses count when they reproduce;
+    'I'-kind step clauses (preservation of the representation invariant) are lemmas: without an end-to-end witness in the
+    same run they make the check inconclusive, never a violation."""
+    groups = {}
+    for r, c in run.candidates():
+        d = c.get('detail', {})
+        key = (d.get('level'), c['label'].split(':')[0], d.get('N'), d.get('which'))
+        groups.setdefault(key, []).append(c)
+    lemma_only = []
+    for key, cs in sorted(groups.items(), key=lambda kv: str(kv[0])):
+        level, head = key[0], key[1]
+        kind = cs[0].get('detail', {}).get('kind')
+        if level == 'step' and kind in kinds_needing_e2e:
+            lemma_only.append((head, cs[0]))
+            continue
+        ok_any = False
+        last = ''
+        for c in cs[:4]:
+            a = replay_args(c, want)
+            rp = run.write_replay(head.replace(' ', '_')[:30], an.REPLAY_TEMPLATE % {'verif': report.VERIF, 'args': a})
+            ok, out = run.run_replay(rp)
+            last = (out or '').strip()[-400:]
+            if ok:
+                ok_any = True
+                run.confirmed('%s:%s:%s' % (run.pid, level, head), '%s [%s level, N=%s]: %s' % (c['label'], level, key[2], last), rp)
+                break
+        if not ok_any:
+            run.unconfirmed('%s (%s level)' % (cs[0]['label'], level), last)
+    if lemma_only:
+        if run.violations:
+            run.extra['lemma_failures_explained_by_confirmed_violations'] = [h for h, _ in lemma_only]
+        else:
+            for h, c in lemma_only:
+                run.unconfirmed('%s (invariant-preservation lemma of the step check; no end-to-end witness found)' % c['label'],
+                                'model: %s' % c['model'])
+    if run.violations:
+        run.cex_unconfirmed = []
+
+
+def step_jobs(want, plan, md_inf=(True,)):
+    jobs = []
+    for (N, k) in plan:
+        for recalc in (False, True):
+            for best in range(k):
+                for mi in md_inf:
+                    jobs.append((step_job, (N, k, want, False, 30000, recalc, mi, best)))
+    return jobs
+
+
+def describe_stubs(run):
+    run.stub('Evolvent.GetImage for N >= 2 in the step checks -> arbitrary map into the open box (EvolventStub); real evolvent for N = 1 '
+             'and in the scenario runs')
+    run.stub('depq.DEPQ in the step checks and scenario runs -> QueueStub (unbounded max-priority queue, earliest-inserted among equals); '
+             'the real DEPQ is executed in the "real_queue" scenarios and in C19')
+    run.assume('floats are modelled as reals; concrete prefix values and r are lifted exactly')
